@@ -321,9 +321,10 @@ func (rm *ResponseManager) newRequest(ctx context.Context, p peer.ID, request gs
 	rm.inProgressResponses[request.ID()] = response
 }
 
-func (rm *ResponseManager) taskDataForKey(requestID graphsync.RequestID) queryexecutor.ResponseTask {
+func (rm *ResponseManager) taskDataForKey(requestID graphsync.RequestID, p peer.ID) queryexecutor.ResponseTask {
 	response, hasResponse := rm.inProgressResponses[requestID]
-	if !hasResponse || response.state == graphsync.CompletingSend {
+	// a task of one peer must never start the response of another peer that uses the same request ID
+	if !hasResponse || response.peer != p || response.state == graphsync.CompletingSend {
 		return queryexecutor.ResponseTask{Empty: true}
 	}
 	log.Infow("graphsync response processing begins", "request id", requestID.String(), "peer", response.peer, "total time", time.Since(response.startTime))
@@ -393,7 +394,7 @@ func (rm *ResponseManager) taskDataForKey(requestID graphsync.RequestID) queryex
 // ready to be processed.
 func (rm *ResponseManager) startTask(task *peertask.Task, p peer.ID) queryexecutor.ResponseTask {
 	requestID := task.Topic.(graphsync.RequestID)
-	taskData := rm.taskDataForKey(requestID)
+	taskData := rm.taskDataForKey(requestID, p)
 	if taskData.Empty {
 		rm.responseQueue.TaskDone(p, task)
 	}
@@ -416,7 +417,9 @@ func (rm *ResponseManager) finishTask(task *peertask.Task, p peer.ID, err error)
 	requestID := task.Topic.(graphsync.RequestID)
 	rm.responseQueue.TaskDone(p, task)
 	response, ok := rm.inProgressResponses[requestID]
-	if !ok {
+	// the entry may be gone (retired by a message notification before this call was handled) and the
+	// ID reused by another peer: a finished task only concerns its own peer's response
+	if !ok || response.peer != p {
 		return
 	}
 	if response.networkError && !ipldutil.IsContextCancelErr(err) {
